@@ -21,6 +21,7 @@
 """Serialization/Deserialization library using fcp schemas."""
 
 from beartype.typing import Dict, Any, Union, List
+import builtins
 import struct
 
 from .specs.v2 import FcpV2
@@ -235,6 +236,10 @@ def _decode_dynamic_array(
     buffer: _Buffer, fcp: FcpV2, type: DynamicArrayType
 ) -> List[Any]:
     len = _decode_builtin_unsigned(buffer, UnsignedType("u32"))
+    # every element occupies at least one bit: a count the rest of the input
+    # cannot hold is refused before any element is built
+    if len > 8 * builtins.len(buffer.buffer) - buffer.bitaddr:
+        raise ValueError("buffer overrrun")
     data = []
     for i in range(len):
         data.append(_decode(buffer, fcp, type.underlying_type))
